@@ -90,6 +90,9 @@ def main(tier, replay=None):
                     stride = 0
                 if stride:
                     states += [(n, t) for t in range(1, len(op.data), stride)]
+                if op.path.rsplit(".", 1)[-1].startswith("a") and tier != "thorough":
+                    # every line boundary of a cache-file write: the tears that leave syntactically complete elements
+                    states += [(n, i + 1) for i, ch in enumerate(op.data[:-1]) if ch == 10]
         mstates = {}
         uniq = []
         tmp = os.path.join(run.scratch_base(), "c20m")
